@@ -203,6 +203,11 @@ def build(app):
         rq = app.request
         hm = rq.headers.get('X-M') or '?'
         note('fixed:hdr', hm)
+        # the parsed containers belong to this request: what the handler adds to them must stay here
+        note('fixed:cookies_on_entry', sorted(rq.cookies.items()))
+        note('fixed:query_on_entry', sorted(rq.query.items()))
+        rq.cookies['seen-by'] = hm
+        rq.query['seen-by'] = hm
         note('fixed:cookie', rq.cookies.get('c'))
         note('fixed:auth', rq.auth)
         if rq.method == 'POST':
